@@ -510,7 +510,14 @@ func oracleCase3(f []string) (string, bool) {
 		d := unhex(f[1])
 		v, p, err := rjson.ReadValue(d)
 		if err != nil {
-			if f[3] == "all" {
+			// every member is read with a validating reader in both modes (the fast skipper only after the
+			// validating one accepted), so the composed decoder must fail too - except for the depth limit,
+			// which the skippers count from the member and the generic reader from the top
+			// (a number that is well-formed but out of float64 range is refused by direct decoding and
+			// accepted by a skipper, so in mix mode only syntactic failures are demanded)
+			var raw json.RawMessage
+			firstValueMalformed := json.NewDecoder(bytes.NewReader(d)).Decode(&raw) != nil
+			if f[3] == "all" || (!strings.Contains(err.Error(), "depth") && firstValueMalformed) {
 				return "err", true
 			}
 			return "-", true
